@@ -21,13 +21,15 @@ INDEX — the clauses of properties.jsonl#C19.statement and the theorems that pr
  7. "sends closer together than the minimum interval … are refused"
       → `vc_too_frequent_iff` (one step), `vc_first_send_not_too_frequent`, `vc_send_limits_min_interval` (exact: refused IFF
         time − previous accepted send < MinInterval), `vc_send_limits_min_interval_key`.
+ 2'. other phone / area code with the cache filled far beyond capacity: `bulk_spec` (closed form of n sends to distinct pairs = model run), `bulk_keys`.
  8. "or beyond the per-window count limit, are refused" → `vc_send_limits_count` (≤ MaxCount+1 per window, ghost window from outputs and
       clock), `vc_count_limit_iff`, `vc_window_refresh`.
  Quantifier "lifetimes and intervals": exact millisecond arithmetic for every duration and every non-decreasing clock history.
  NOT proved, only monitored or assumed: `random.MD5UUID()` returns a fresh value (monitor `C19:MD5UUID:hash-repeated`); `rand.Intn(n)`
  can return every value below n, in particular n−1 (monitor on `sample` lines); the real clock is monotonic (the harness uses a fake
  clock through the proposed hook, else only ±∞ durations); calls are sequential (vcode has no lock — concurrency is not modelled);
- strings are ASCII (bytes = characters); `cache.LRUCache` behaves as modelled (exercised with CacheSize 0–4); int counters do not overflow.
+ strings are BYTE strings as in Go (`Str` = one `Char` < 256 per byte; no ASCII assumption: `len`, slicing, `%s` and the model all work on bytes); `cache.LRUCache` behaves as
+ modelled (exercised with CacheSize 0–4, 8, 16, 17, 64 filled beyond capacity, and 70 000 entries against the closed form `bulk_spec`); int counters do not overflow.
 
 Histories are arbitrary lists of timed `Op`s run with `Nv.final (step c pr)` (each operation carries the clock reading at which it
 happens; readings never decrease: `advance`); states are arbitrary unless a hypothesis says otherwise.  Theorems stated on cache keys
@@ -897,6 +899,256 @@ theorem nonce_lenMinus1_never_last (base : Str) (hnd : base.Nodup) (len : Nat) (
   have := (List.getElem_inj hnd).1 (hxi.trans hl)
   omega
 
+/-! ### bulk: the closed form of "n sends to distinct pairs, then verify and re-send pair k" equals the model run -/
+
+theorem advance_zero (s : State) : advance 0 s = s := by
+  cases s; simp [advance]
+
+def keysOf (c : Cache) : List Str := c.map (·.1)
+
+theorem lookup_none_of_not_mem : ∀ (c : Cache) (k : Str), k ∉ keysOf c → lookup k c = none
+  | [], _, _ => rfl
+  | (k', e) :: rest, k, h => by
+    simp only [keysOf, List.map_cons, List.mem_cons, not_or] at h
+    rw [lookup_cons_ne h.1]; exact lookup_none_of_not_mem rest k h.2
+
+theorem not_mem_of_lookup_none : ∀ (c : Cache) (k : Str), lookup k c = none → k ∉ keysOf c
+  | [], _, _ => by simp [keysOf]
+  | (k', e) :: rest, k, h => by
+    by_cases hk : k = k'
+    · subst hk; simp at h
+    · rw [lookup_cons_ne hk] at h
+      simp only [keysOf, List.map_cons, List.mem_cons, not_or]
+      exact ⟨hk, not_mem_of_lookup_none rest k h⟩
+
+theorem erase_of_not_mem : ∀ (c : Cache) (k : Str), k ∉ keysOf c → erase k c = c
+  | [], _, _ => rfl
+  | (k', e) :: rest, k, h => by
+    simp only [keysOf, List.map_cons, List.mem_cons, not_or] at h
+    have ih := erase_of_not_mem rest k h.2
+    unfold erase at ih ⊢
+    have : k' ≠ k := fun e => h.1 e.symm
+    simp only [ne_eq] at ih
+    simp only [List.filter_cons, ne_eq, this, not_false_eq_true, decide_true, if_true, ih]
+
+theorem take_cons_take {α} (x : α) (l : List α) : ∀ n, (x :: l.take n).take n = (x :: l).take n
+  | 0 => rfl
+  | n + 1 => by
+    simp only [List.take_succ_cons, List.cons.injEq, true_and]
+    rw [List.take_take]; congr 1; omega
+
+theorem bulkPhone_inj (i j : Nat) (h : bulkPhone i = bulkPhone j) : i = j := by
+  have := dec_inj _ _ h; omega
+
+/-- the key of generated pair i under the send format -/
+def bulkKey (c : Cfg) (i : Nat) : Str := mkKey c.sendKeyFmt bulkArea (bulkPhone i)
+
+theorem bulkKey_inj (c : Cfg) (hc : Proved c) (i j : Nat) (h : bulkKey c i = bulkKey c j) : i = j := by
+  unfold bulkKey at h; rw [hc.1] at h
+  exact bulkPhone_inj i j (mkKey_lenPrefix_inj _ _ _ _ h).2
+
+/-- keys of the pairs m−1, …, 1, 0: the recency order after m sends -/
+def keysDesc (c : Cfg) : Nat → List Str
+  | 0 => []
+  | m + 1 => bulkKey c m :: keysDesc c m
+
+theorem mem_keysDesc (c : Cfg) : ∀ (m : Nat) (x : Str), x ∈ keysDesc c m → ∃ j, j < m ∧ x = bulkKey c j
+  | 0, _, h => by simp [keysDesc] at h
+  | m + 1, x, h => by
+    simp only [keysDesc, List.mem_cons] at h
+    rcases h with h | h
+    · exact ⟨m, by omega, h⟩
+    · obtain ⟨j, hj, hx⟩ := mem_keysDesc c m x h; exact ⟨j, by omega, hx⟩
+
+/-- pair k is among the `cap` most recent of n pairs iff it was sent and fewer than `cap` sends followed it -/
+theorem mem_take_keysDesc (c : Cfg) (hc : Proved c) (k : Nat) : ∀ (n cap : Nat),
+    bulkKey c k ∈ (keysDesc c n).take cap ↔ (k < n ∧ n - 1 - k < cap)
+  | 0, cap => by simp [keysDesc]
+  | n + 1, 0 => by simp
+  | n + 1, cap + 1 => by
+    simp only [keysDesc, List.take_succ_cons, List.mem_cons]
+    rw [mem_take_keysDesc c hc k n cap]
+    constructor
+    · rintro (h | h)
+      · have := bulkKey_inj c hc _ _ h; omega
+      · omega
+    · intro h
+      by_cases hk : k = n
+      · left; rw [hk]
+      · right; omega
+
+theorem mem_bulkSends : ∀ (cnt m : Nat) (o : Op), o ∈ bulkSends m cnt → ∃ j, m ≤ j ∧ j < m + cnt ∧ o = .send 0 bulkArea (bulkPhone j)
+  | 0, _, _, h => by simp [bulkSends] at h
+  | cnt + 1, m, o, h => by
+    simp only [bulkSends, List.mem_cons] at h
+    rcases h with h | h
+    · exact ⟨m, by omega, by omega, h⟩
+    · obtain ⟨j, h1, h2, h3⟩ := mem_bulkSends cnt (m + 1) o h; exact ⟨j, by omega, by omega, h3⟩
+
+theorem bulkSends_length : ∀ (cnt m : Nat), (bulkSends m cnt).length = cnt
+  | 0, _ => rfl
+  | cnt + 1, m => by simp [bulkSends, bulkSends_length cnt]
+
+theorem bulkSends_append : ∀ (a m b : Nat), bulkSends m (a + b) = bulkSends m a ++ bulkSends (m + a) b
+  | 0, m, b => by simp [bulkSends]
+  | a + 1, m, b => by
+    have : a + 1 + b = (a + b) + 1 := by omega
+    rw [this]; simp only [bulkSends, List.cons_append, List.cons.injEq, true_and]
+    rw [bulkSends_append a (m + 1) b]; congr 2; omega
+
+theorem bulk_now (c : Cfg) (pr : Params) : ∀ (cnt m : Nat) (s : State),
+    (final (step c pr) s (bulkSends m cnt)).now = s.now
+  | 0, _, _ => rfl
+  | cnt + 1, m, s => by
+    simp only [bulkSends, final_cons]
+    rw [bulk_now c pr cnt (m + 1), step_now]; simp [Op.time]
+
+/-- a send to a pair that is not cached is accepted (bulk parameters: MaxCount 3, mock mode, CodeLen 4) and `Set`s a new entry -/
+theorem bulk_send_fresh (c : Cfg) (cap : Nat) (s : State) (i : Nat) (hl : lookup (bulkKey c i) s.cache = none) :
+    (send c (bulkParams cap) s bulkArea (bulkPhone i)).2 = .ok (s.nsent + 1) ∧
+    (send c (bulkParams cap) s bulkArea (bulkPhone i)).1 =
+      ⟨setLRU cap (bulkKey c i) ⟨1, 0, genCode (bulkParams cap) (bulkPhone i) (s.nsent + 1), s.nsent + 1, s.now, s.now⟩ s.cache,
+        s.nsent + 1, s.now⟩ := by
+  have hl' : lookup (mkKey c.sendKeyFmt bulkArea (bulkPhone i)) s.cache = none := hl
+  have hcs : checkSend c (bulkParams cap) s.now none = .ok (0, s.now) := by
+    unfold checkSend
+    simp only
+    split
+    · rfl
+    · simp [bulkParams]
+  unfold send sendK
+  simp only [hl', hcs]
+  simp [bulkParams, bulkKey]
+
+/-- **after n sends to distinct generated pairs the cache holds exactly the `cap` most recent ones, most recent first** -/
+theorem bulk_keys (c : Cfg) (hc : Proved c) (cap : Nat) : ∀ (cnt m : Nat) (s : State),
+    keysOf s.cache = (keysDesc c m).take cap → s.nsent = m →
+    keysOf (final (step c (bulkParams cap)) s (bulkSends m cnt)).cache = (keysDesc c (m + cnt)).take cap ∧
+      (final (step c (bulkParams cap)) s (bulkSends m cnt)).nsent = m + cnt
+  | 0, m, s, hk, hn => ⟨hk, hn⟩
+  | cnt + 1, m, s, hk, hn => by
+    have hnm : bulkKey c m ∉ keysOf s.cache := by
+      rw [hk]; intro hm
+      obtain ⟨j, hj, hx⟩ := mem_keysDesc c m _ (List.mem_of_mem_take hm)
+      have := bulkKey_inj c hc _ _ hx; omega
+    have hf := bulk_send_fresh c cap s m (lookup_none_of_not_mem _ _ hnm)
+    simp only [bulkSends, final_cons, step, advance_zero]
+    have := bulk_keys c hc cap cnt (m + 1) (send c (bulkParams cap) s bulkArea (bulkPhone m)).1
+      (by
+        rw [hf.2]
+        simp only [setLRU, touch, keysOf, List.map_take, List.map_cons]
+        have he : erase (bulkKey c m) s.cache = s.cache := erase_of_not_mem _ _ hnm
+        rw [he]
+        have hk' : List.map (fun x => x.1) s.cache = (keysDesc c m).take cap := hk
+        rw [hk', take_cons_take]; rfl)
+      (by rw [hf.2]; simp only; omega)
+    have e : m + 1 + cnt = m + (cnt + 1) := by omega
+    rw [e] at this; exact this
+
+/-- **bulk_spec**: for a proved configuration the closed form the oracle prints for a `bulk <cap> <n> <k>` line IS the result of running the
+    model — n sends to distinct generated pairs from the empty cache, then pair k verified with its code and hash, then re-sent: pair k is still
+    cached (verify ok, re-send too frequent) iff k < n and fewer than `cap` sends followed it; otherwise it is gone (not exist, re-send accepted) -/
+theorem bulk_spec (c : Cfg) (hc : Proved c) (cap n k : Nat) : bulkRun c cap n k = bulkClosed cap n k := by
+  unfold bulkRun bulkClosed
+  have hfmt : c.sendKeyFmt = c.verifyKeyFmt := by rw [hc.1, hc.2.1]
+  have hall := bulk_keys c hc cap n 0 State.init (by simp [keysOf, State.init, keysDesc]) rfl
+  simp only [Nat.zero_add] at hall
+  by_cases hs : k < n ∧ n - 1 - k < cap
+  · -- pair k survives
+    rw [if_pos hs]
+    obtain ⟨hkn, hlt⟩ := hs
+    have hcap : 0 < cap := by omega
+    have hsplit : bulkSends 0 n = bulkSends 0 k ++ (.send 0 bulkArea (bulkPhone k) :: bulkSends (k + 1) (n - 1 - k)) := by
+      have e : n = k + (1 + (n - 1 - k)) := by omega
+      conv => lhs; rw [e]
+      rw [bulkSends_append k 0 (1 + (n - 1 - k))]
+      have e2 : 1 + (n - 1 - k) = (n - 1 - k) + 1 := by omega
+      rw [e2]; simp [bulkSends]
+    have hpre := bulk_keys c hc cap k 0 State.init (by simp [keysOf, State.init, keysDesc]) rfl
+    simp only [Nat.zero_add] at hpre
+    generalize hsk : final (step c (bulkParams cap)) State.init (bulkSends 0 k) = sk at hpre
+    have hnow_k : sk.now = 0 := by rw [← hsk, bulk_now]; rfl
+    have hnm : bulkKey c k ∉ keysOf sk.cache := by
+      rw [hpre.1]; intro hm
+      obtain ⟨j, hj, hx⟩ := mem_keysDesc c k _ (List.mem_of_mem_take hm)
+      have := bulkKey_inj c hc _ _ hx; omega
+    have hf := bulk_send_fresh c cap sk k (lookup_none_of_not_mem _ _ hnm)
+    have hacc : (send c (bulkParams cap) sk bulkArea (bulkPhone k)).2.accepted = some (k + 1) := by
+      rw [hf.1, hpre.2]; rfl
+    have hfinal : final (step c (bulkParams cap)) State.init (bulkSends 0 n) =
+        final (step c (bulkParams cap)) (send c (bulkParams cap) sk bulkArea (bulkPhone k)).1 (bulkSends (k + 1) (n - 1 - k)) := by
+      rw [hsplit, final_append, hsk, final_cons]; simp only [step, advance_zero]
+    have hns : ∀ o ∈ bulkSends (k + 1) (n - 1 - k), o.isSend = true → o.key c ≠ mkKey c.sendKeyFmt bulkArea (bulkPhone k) := by
+      intro o ho _ hkey
+      obtain ⟨j, h1, _, rfl⟩ := mem_bulkSends _ _ o ho
+      have := bulkKey_inj c hc j k hkey; omega
+    have hoth : othersOf c (mkKey c.sendKeyFmt bulkArea (bulkPhone k)) (bulkSends (k + 1) (n - 1 - k)) ≤ n - 1 - k := by
+      unfold othersOf
+      exact Nat.le_trans (List.length_filter_le _ _) (by rw [bulkSends_length]; exact Nat.le_refl _)
+    have hp0 := send_accepted_pos0 c (bulkParams cap) hcap sk bulkArea (bulkPhone k) (k + 1) hacc
+    have hev : noEvict c (bulkParams cap) (mkKey c.sendKeyFmt bulkArea (bulkPhone k))
+        (send c (bulkParams cap) sk bulkArea (bulkPhone k)).1 (bulkSends (k + 1) (n - 1 - k)) = true := by
+      apply noEvict_of_few_others; rw [hp0]; simp only [bulkParams]; omega
+    have hver0 : verifiesOf c (mkKey c.sendKeyFmt bulkArea (bulkPhone k)) (bulkSends (k + 1) (n - 1 - k)) = 0 := by
+      unfold verifiesOf
+      rw [List.length_eq_zero_iff, List.filter_eq_nil_iff]
+      intro o ho
+      obtain ⟨j, _, _, rfl⟩ := mem_bulkSends _ _ o ho
+      simp [Op.isSend]
+    have hv := vc_send_then_verify_key c (bulkParams cap) hfmt hcap sk bulkArea (bulkPhone k) (k + 1) hacc
+      (bulkSends (k + 1) (n - 1 - k)) hns hev (by rw [hver0]; simp [bulkParams]) 0
+    rw [advance_zero, ← hfinal] at hv
+    have hnow_n : (final (step c (bulkParams cap)) State.init (bulkSends 0 n)).now = 0 := by rw [bulk_now]; rfl
+    rw [hnow_n, hnow_k, hc.2.2.2.2.2] at hv
+    have hv' : (verify c (bulkParams cap) (final (step c (bulkParams cap)) State.init (bulkSends 0 n)) bulkArea (bulkPhone k)
+        (genCode (bulkParams cap) (bulkPhone k) (k + 1)) (k + 1)).2 = .ok := by
+      rw [hv]; simp [GtCmp.holds, bulkParams]
+    -- the re-send, after the verify
+    let vop : Op := .verify 0 bulkArea (bulkPhone k) (genCode (bulkParams cap) (bulkPhone k) (k + 1)) (k + 1)
+    have hvkey : vop.key c = mkKey c.sendKeyFmt bulkArea (bulkPhone k) := by simp [vop, Op.key, hfmt]
+    have hns2 : ∀ o ∈ bulkSends (k + 1) (n - 1 - k) ++ [vop], o.isSend = true → o.key c ≠ mkKey c.sendKeyFmt bulkArea (bulkPhone k) := by
+      intro o ho hsd
+      rcases List.mem_append.1 ho with h | h
+      · exact hns o h hsd
+      · simp at h; subst h; simp [vop, Op.isSend] at hsd
+    have hoth2 : othersOf c (mkKey c.sendKeyFmt bulkArea (bulkPhone k)) (bulkSends (k + 1) (n - 1 - k) ++ [vop]) ≤ n - 1 - k := by
+      unfold othersOf at hoth ⊢
+      rw [List.filter_append, List.length_append]
+      have : (List.filter (fun o => decide (o.key c ≠ mkKey c.sendKeyFmt bulkArea (bulkPhone k))) [vop]).length = 0 := by
+        simp [hvkey]
+      omega
+    have hev2 : noEvict c (bulkParams cap) (mkKey c.sendKeyFmt bulkArea (bulkPhone k))
+        (send c (bulkParams cap) sk bulkArea (bulkPhone k)).1 (bulkSends (k + 1) (n - 1 - k) ++ [vop]) = true := by
+      apply noEvict_of_few_others; rw [hp0]; simp only [bulkParams]; omega
+    have hr := vc_send_limits_min_interval_key c (bulkParams cap) hcap sk bulkArea (bulkPhone k) (k + 1) hacc
+      (bulkSends (k + 1) (n - 1 - k) ++ [vop]) hns2 hev2 0
+    have hfin2 : final (step c (bulkParams cap)) (send c (bulkParams cap) sk bulkArea (bulkPhone k)).1 (bulkSends (k + 1) (n - 1 - k) ++ [vop]) =
+        (verify c (bulkParams cap) (final (step c (bulkParams cap)) State.init (bulkSends 0 n)) bulkArea (bulkPhone k)
+          (genCode (bulkParams cap) (bulkPhone k) (k + 1)) (k + 1)).1 := by
+      rw [final_append, ← hfinal]; simp only [final_cons, final_nil, vop, step, advance_zero]
+    rw [advance_zero, hfin2] at hr
+    have hnow_v : (verify c (bulkParams cap) (final (step c (bulkParams cap)) State.init (bulkSends 0 n)) bulkArea (bulkPhone k)
+          (genCode (bulkParams cap) (bulkPhone k) (k + 1)) (k + 1)).1.now = 0 := by
+      have := step_now c (bulkParams cap) (final (step c (bulkParams cap)) State.init (bulkSends 0 n)) vop
+      simp only [vop, step, advance_zero, Op.time] at this
+      rw [this, hnow_n]; rfl
+    rw [hnow_v, hnow_k, hc.2.2.2.1] at hr
+    have hr' := hr.2 (by simp [LtCmp.holds, bulkParams])
+    simp only [hv', hr']
+  · -- pair k is not cached: never sent, or evicted
+    rw [if_neg hs]
+    have hnm : bulkKey c k ∉ keysOf (final (step c (bulkParams cap)) State.init (bulkSends 0 n)).cache := by
+      rw [hall.1]; exact fun hm => hs ((mem_take_keysDesc c hc k n cap).1 hm)
+    have hl := lookup_none_of_not_mem _ _ hnm
+    have hl' : lookup (mkKey c.verifyKeyFmt bulkArea (bulkPhone k))
+        (final (step c (bulkParams cap)) State.init (bulkSends 0 n)).cache = none := by rw [← hfmt]; exact hl
+    have hv : verify c (bulkParams cap) (final (step c (bulkParams cap)) State.init (bulkSends 0 n)) bulkArea (bulkPhone k)
+        (genCode (bulkParams cap) (bulkPhone k) (k + 1)) (k + 1) =
+        (final (step c (bulkParams cap)) State.init (bulkSends 0 n), .notExist) := by
+      unfold verify; exact verifyK_none _ _ _ _ _ _ hl'
+    have hf := bulk_send_fresh c cap _ k hl
+    simp only [hv, hf.1, hall.2]
+
 /-! ### non-vacuity: concrete non-trivial instances of the hypotheses -/
 
 def cfgFixed : Cfg := ⟨.lenPrefix, .lenPrefix, .len, .lt, .gt, .gt⟩
@@ -916,6 +1168,22 @@ example : ¬ Proved cfgOld := by decide
 example : mkKey .lenPrefix ['1','-','2'] ['3'] = ['3',':','1','-','2','3'] ∧
     mkKey .lenPrefix ['1'] ['2','-','3'] = ['1',':','1','2','-','3'] ∧ mkKey .lenPrefix [] [] = ['0',':'] := by decide
 example : dec 1234567890123 = "1234567890123".toList := by decide
+
+/-- byte strings: "é" is the two bytes C3 A9. The pairs ("é","5") and ("\xc3","\xa95") are distinct and get distinct keys (a length prefix
+    counting characters instead of bytes would give both `1:é5`); `mkKey_lenPrefix_inj` / `vc_other_pair_rejected` cover them like any strings -/
+def bC3 : Char := Char.ofNat 0xC3
+def bA9 : Char := Char.ofNat 0xA9
+example : mkKey .lenPrefix [bC3, bA9] ['5'] = ['2', ':', bC3, bA9, '5'] ∧ mkKey .lenPrefix [bC3] [bA9, '5'] = ['1', ':', bC3, bA9, '5'] ∧
+    mkKey .lenPrefix [bC3, bA9] ['5'] ≠ mkKey .lenPrefix [bC3] [bA9, '5'] := by decide
+example : (outs (step cfgFixed { prMock with codeLen := 1 }) State.init
+    [.send 0 [bC3, bA9] ['5'], .verify 0 [bC3] [bA9, '5'] (.lit ['5']) 1, .verify 0 [bC3, bA9] ['5'] (.lit ['5']) 1]) =
+    [.send (.ok 1), .verify .notExist, .verify .ok] := by decide
+/-- a mock code is the last CodeLen BYTES of the phone: it may start inside a multi-byte character -/
+example : mockCode ['7', bC3, bA9] 1 = [bA9] ∧ mockCode [bC3, bA9] 3 = ['0', bC3, bA9] := by decide
+
+/-- `bulk_spec` instances (run on the model by `decide`): capacity 3, 5 sends — pairs 2, 3, 4 survive, pairs 0 and 1 are gone -/
+example : bulkRun cfgFixed 3 5 2 = (.ok, .tooFreq) ∧ bulkRun cfgFixed 3 5 1 = (.notExist, .ok 6) ∧ bulkRun cfgFixed 3 5 7 = (.notExist, .ok 6) := by decide
+example : bulkClosed 100000 70000 0 = (.ok, .tooFreq) ∧ bulkClosed 65536 70000 0 = (.notExist, .ok 70001) := by decide
 
 /-- `vc_send_then_verify`: after a send to ("1-2","3"), a wrong guess, and traffic on ("1","2-3") — the pair that shares the
     dashed key — the code still verifies and the other pair is refused; hypotheses hold (one attempt < 2, 2 others < 1000) -/
